@@ -169,6 +169,7 @@ func pdfWrite(revs []pdfRevision) pdfWritten {
 			fmt.Fprintf(&out, "%d 0 obj%s%s%sendobj%s", num, nl, pdfStream(dict, data.Bytes(), rev.flate), nl, nl)
 		}
 		hybridOff := int64(-1)
+		var hiddenOfRev []pdfXrefEntry
 		if rev.hybrid && !rev.xrefStm {
 			// hybrid-reference file: the packed objects are listed in a cross-reference stream that the
 			// trailer of the classic table names with /XRefStm; the table lists everything else
@@ -188,6 +189,8 @@ func pdfWrite(revs []pdfRevision) pdfWritten {
 			shown = append(shown, pdfXrefEntry{rev.xrefNum, 1, hybridOff, 0})
 			xstream(rev.xrefNum, hidden, false)
 			entries = shown
+			// what a reader sees of this revision: the table, then the stream for what the table does not list
+			hiddenOfRev = hidden
 		}
 		xrefOff := int64(out.Len())
 		if rev.xrefStm {
@@ -237,7 +240,7 @@ func pdfWrite(revs []pdfRevision) pdfWritten {
 		}
 		fmt.Fprintf(&out, "startxref%s%d%s%%%%EOF%s", nl, xrefOff, nl, nl)
 		prev = xrefOff
-		w.sections = append(w.sections, entries)
+		w.sections = append(w.sections, append(entries, hiddenOfRev...))
 	}
 	w.data = out.Bytes()
 	return w
